@@ -185,6 +185,9 @@ class HeapMixin:
             cbs = self.contract.callbacks
             if name in cbs:
                 return cbs[name]
+            for k, v in cbs.items():
+                if k.startswith("*.") and name.endswith(k[1:]):
+                    return v
             best = None
             for k, v in cbs.items():
                 if name.endswith("." + k) or name.endswith("#ret." + k.split(".")[-1]) and k.count(".") == 1 and name.split(".")[-1] == k.split(".")[-1] and False:
@@ -385,7 +388,19 @@ class HeapMixin:
         if r.arr is not None:
             return self.wrap(r.elem, z3.Select(r.arr, pos))
         if r.elem[0] == "obj":
-            nm = f"{r.sym}[{E.simp(pos + r.shift) if not isinstance(r.shift, int) or r.shift else pos}]"
+            epos = E.simp(pos + r.shift) if not isinstance(r.shift, int) or r.shift else E.simp(pos) if not isinstance(pos, int) else pos
+            nm = f"{r.sym}[{epos}]"
+            # aliasing: a symbolic index may denote an element that is already materialised under another index term
+            if nm not in self.run.sym_oids and not isinstance(epos, int) and not z3.is_int_value(epos):
+                seen = self.run.elem_index.setdefault(r.sym, [])
+                for (qterm, qname) in seen:
+                    if self.run.decide(epos == qterm, f"{nm} is {qname}"):
+                        nm = qname
+                        break
+                else:
+                    seen.append((epos, nm))
+            elif nm not in self.run.sym_oids:
+                self.run.elem_index.setdefault(r.sym, []).append((epos if not isinstance(epos, int) else z3.IntVal(epos), nm))
             cls = r.elem[1]
 
             def mk():
@@ -486,7 +501,18 @@ class HeapMixin:
             if self.run.decide(kt == ok, "key equals stored key"):
                 return ov
         if r.vtype[0] == "obj":
-            nm = f"{r.valsym or r.sym}[{kt}]"
+            base = r.valsym or r.sym
+            kt = E.simp(kt)
+            nm = f"{base}[{kt}]"
+            if nm not in self.run.sym_oids:
+                # aliasing: a symbolic key may equal a key under which the value object is already materialised
+                seen = self.run.elem_index.setdefault(base, [])
+                for (qterm, qname) in seen:
+                    if qterm.sort() == kt.sort() and self.run.decide(kt == qterm, f"{nm} is {qname}"):
+                        nm = qname
+                        break
+                else:
+                    seen.append((kt, nm))
             cls = r.vtype[1]
             return self.sym_ref(nm, "obj", cls, lambda: ObjRec(cls, {}, sym=nm))
         return self.fresh(r.vtype, f"{r.valsym or r.sym}[{kt}]")
